@@ -275,6 +275,10 @@ async def _run(case, loop, base, root, outside):
         inside_after = snapshot(root)
         if not write and inside_after != inside_before:
             vio.append(V("C19/modified-without-write-permission", "request %d method %d Uri-Path %r (response %s)" % (ri, rq["method"], path, resp.code)))
+        elif (code >> 5) in (4, 5) and inside_after != inside_before:
+            # "answered with an error response and has no effect" (a spool file left behind is an effect, too)
+            changed = sorted(set(inside_after) ^ set(inside_before)) or sorted(k for k in inside_after if inside_after[k] != inside_before.get(k))
+            vio.append(V("C19/error-response-but-tree-modified", "request %d method %d Uri-Path %r answered %s, yet the served tree changed: %r" % (ri, rq["method"], path, resp.code, [os.path.relpath(k, root) for k in changed][:3])))
         # 3. functional sanity of what happened inside (reference: plain join of well-behaved components)
         wellbehaved = bool(path) and all(c and "/" not in c and c not in (".", "..") and "\x00" not in c and len(c) < 200 for c in path)
         target = os.path.join(root, *path) if wellbehaved else None
@@ -474,7 +478,11 @@ HOSTILE = ["", ".", "..", "a/b", "/", "\x00", "..%2f", "%2e%2e", "../outside", "
 
 @st.composite
 def _path_spec(draw):
-    kind = draw(st.sampled_from(["normal", "normal", "existing", "existing", "hostile", "hostile", "abs", "dotdot", "dir"]))
+    kind = draw(st.sampled_from(["normal", "normal", "existing", "existing", "hostile", "hostile", "abs", "dotdot", "dir", "special-last"]))
+    if kind == "special-last":
+        # a harmless (possibly empty) prefix and a last component with a special character: the path resolves inside the
+        # root, the operation on it may still fail half-way
+        return draw(st.lists(st.sampled_from(["d", "sub", "a"]), max_size=2)) + [draw(st.sampled_from(["\x00", "a\x00b", "nul\x00", "\x00.txt", "x y", "ä", "~", "...", "$LONG"]))]
     if kind == "existing":
         return ["$TREE", draw(st.integers(0, 5))] + draw(st.sampled_from([[], [], [], ["new.txt"], [""]]))
     if kind == "normal":
